@@ -140,6 +140,7 @@ func init() {
 		return uint64(i)
 	}
 	harnessAPI["verifYield"] = func(ex *Exec, fr *frame, a []value) value { ex.preemptPoint("verifYield"); return nil }
+	harnessAPI["verifSettle"] = func(ex *Exec, fr *frame, a []value) value { ex.quiesce(); return nil }
 	harnessAPI["verifQuiesce"] = func(ex *Exec, fr *frame, a []value) value { ex.quiesce(); return nil }
 	harnessAPI["verifGoroutinesAlive"] = func(ex *Exec, fr *frame, a []value) value {
 		n := 0
